@@ -317,7 +317,17 @@ pub fn def() -> PropertyDef {
 		rule: "CRL Specs (0..5 entries, all reason codes and none, invalidity dates, serials/CRL numbers with every leading-byte pattern, IDP with both scopes and none, four key-id methods, every issuer key algorithm) -> harness decoder -> reference model, plus OpenSSL X509_CRL_get0_by_serial on listed and unlisted (neighbouring) serials; refusal rules: thisUpdate/nextUpdate pairs at differences <0, 0, sub-second, 1 s, large across offsets; all 512 issuer key-usage sets. Non-trivial = entry extension or IDP present, pair within 2 s, every key-usage set.",
 		assumptions: vec!["the harness decoder", "OpenSSL's CRL lookup semantics (serial equality as integers)", "webpki's CRL support (no issuing distribution point; end-entity depth)"],
 		subs: vec![
-			prop_sub("content", 80_000, 600_000, || crl_case(false, false), check_content),
+			prop_sub("content", 80_000, 600_000, || {
+				// an issuing distribution point may be asked for with a scope and no URI at all
+				(crl_case(false, false), prop::bool::weighted(0.15))
+					.prop_map(|(mut c, no_uris)| {
+						if let (true, Some(idp)) = (no_uris, c.crl.idp.as_mut()) {
+							idp.uris.clear();
+						}
+						c
+					})
+					.boxed()
+			}, check_content),
 			prop_sub("order", 64_000, 400_000, order_case, check_order),
 			prop_sub("webpki-revocation", 16_000, 200_000, webpki_case, check_webpki),
 			sweep_sub("issuer-ku-sweep", |_| (0u16..512).map(|m| KuCase { ku_mask: m }).collect(), check_ku),
